@@ -211,6 +211,14 @@ def branch_descriptions():
                     if nw and roles[0] != "ms":
                         continue
                     out.append((f"branch:{'nw' if nw else 'axi'}/{algo}/{''.join(roles)}/{sel}", d))
+                    # the package branch without an address table (documented option): other RouteCfg entries are set
+                    if sel == "both" and roles == ["ms", "m", "s"] and algo in ("XY", "ID"):
+                        import copy
+                        dn = copy.deepcopy(d)
+                        dn["routing"]["use_id_table"] = False
+                        if algo == "ID":
+                            dn["routing"]["addr_offset_bits"] = 16
+                        out.append((f"branch:{'nw' if nw else 'axi'}-no-table/{algo}/{''.join(roles)}/{sel}", dn))
                     # narrow-wide networks with virtual-channel identifiers take another header / link typedef branch
                     if nw and sel == "both":
                         import copy
